@@ -505,3 +505,59 @@ end Fteik.Generated
 """
     write_if_changed(os.path.join(GEN, "Effects.lean"), body)
     return facts, info
+
+
+# =============================================================================== API purity (C17)
+def api_facts():
+    """no method of the object layer other than __init__/resample/smooth assigns an attribute,
+    stores through a subscript or updates anything in place"""
+    facts = {}
+    detail = []
+    for rel in ("_solver.py", "_grid.py", "_base.py"):
+        tree, _ = parse(rel)
+        for cls in [n for n in tree.body if isinstance(n, ast.ClassDef)]:
+            for f in [n for n in cls.body if isinstance(n, ast.FunctionDef)]:
+                mutating = f.name in ("__init__", "resample", "smooth")
+                bad = []
+                for n in ast.walk(f):
+                    if isinstance(n, ast.AugAssign):
+                        bad.append((n.lineno, "in-place update " + u(n.target)))
+                    if isinstance(n, ast.Assign):
+                        for t in n.targets:
+                            for e in ([t] if not isinstance(t, ast.Tuple) else t.elts):
+                                if isinstance(e, (ast.Attribute, ast.Subscript)):
+                                    bad.append((n.lineno, "store to " + u(e)))
+                    if isinstance(n, (ast.Global, ast.Nonlocal)):
+                        bad.append((n.lineno, "global"))
+                if mutating:
+                    # the mutators may only assign self._grid / self._gridsize / self._origin / self._source...
+                    ok = all(w.startswith("store to self._") for _, w in bad)
+                    facts[f"{rel}:{cls.name}.{f.name}.only_assigns_own_fields"] = ok
+                else:
+                    facts[f"{rel}:{cls.name}.{f.name}.pure"] = not bad
+                    detail += [(rel, cls.name, f.name) + b for b in bad]
+        # no module-level mutable containers
+        ok = True
+        for n in tree.body:
+            if isinstance(n, ast.Assign) and not isinstance(n.value, ast.Constant):
+                ok = False
+        facts[f"{rel}:no_module_level_state"] = ok
+    return facts, detail
+
+
+def gen_api():
+    facts, detail = api_facts()
+    body = f"""/-! GENERATED by harness/extract.py from /repo's working tree — do not edit.
+Purity of the object layer (Tie B for C17). -/
+namespace Fteik.Generated
+
+def apiFacts : List (String × Bool) := [
+{chr(10).join('  ("%s", %s),' % (k, "true" if v else "false") for k, v in sorted(facts.items()))}
+  ("end", true)]
+
+theorem apiFacts_all : apiFacts.all (·.2) = true := by decide
+
+end Fteik.Generated
+"""
+    write_if_changed(os.path.join(GEN, "ApiFacts.lean"), body)
+    return facts, detail
